@@ -1156,8 +1156,10 @@ class Bracket:
         """-> [(facts, counter_only)] one entry per alternative under which `value` has the truth value `truth`"""
         out = []
         for alt in literals(value, truth):
-            if any(lit[0] == "other" and const_truth(lit[1]) is not None and const_truth(lit[1]) != lit[2] for lit in alt):
-                continue          # this way of meeting the test asks a constant comparison to come out the other way: it cannot happen
+            if any((lit[0] == "other" and const_truth(lit[1]) is not None and const_truth(lit[1]) != lit[2])
+                   or (lit[0] == "rel" and const_value(lit[1]) is not None and (const_value(lit[1]) > 0 if lit[2] == "le0" else const_value(lit[1]) < 0))
+                   for lit in alt):
+                continue          # this way of meeting the test asks a comparison of constants to come out the other way: it cannot happen
             facts, counter_only = [], True
             for lit in alt:
                 if lit[0] == "rel":
